@@ -28,6 +28,12 @@ type Inst struct {
 
 // Start launches the server. portBase..portBase+2 are used. engine: "mem" | "pebble" | "rocksdb".
 func Start(portBase int, ns string, partNum int, engine string) (*Inst, error) {
+	return StartWithout(portBase, ns, partNum, engine, -1)
+}
+
+// StartWithout is Start, but the partition `missing` (if >= 0) is not hosted by this server
+// (Nodes[missing] is nil): commands routed to it must be rejected.
+func StartWithout(portBase int, ns string, partNum int, engine string, missing int) (*Inst, error) {
 	tmpDir, err := ioutil.TempDir("", "verif-srv-")
 	if err != nil {
 		return nil, err
@@ -55,6 +61,10 @@ func Start(portBase int, ns string, partNum int, engine string) (*Inst, error) {
 	replica.ReplicaID = 1
 	replica.RaftAddr = raftAddr
 	for i := 0; i < partNum; i++ {
+		if i == missing {
+			inst.Nodes = append(inst.Nodes, nil)
+			continue
+		}
 		nsConf := node.NewNSConfig()
 		nsConf.Name = ns + "-" + strconv.Itoa(i)
 		nsConf.BaseName = ns
@@ -73,12 +83,17 @@ func Start(portBase int, ns string, partNum int, engine string) (*Inst, error) {
 	deadline := time.Now().Add(20 * time.Second)
 	for {
 		lead := 0
+		want := 0
 		for _, n := range inst.Nodes {
+			if n == nil {
+				continue
+			}
+			want++
 			if n.Node.IsLead() {
 				lead++
 			}
 		}
-		if lead == partNum {
+		if lead == want {
 			break
 		}
 		if time.Now().After(deadline) {
